@@ -1010,6 +1010,7 @@ void MEDDLY::saturation_set_mtrel<EOP, ATYPE>::fillSplit(int L, node_handle bp)
     // fill split relation by levels
     //
     dd_edge diag(arg2F);
+    dd_edge kdiag(arg2F);
     dd_edge mxd(arg2F);
     mxd.set(arg2F->linkNode(bp));
     for (int k=L; k; --k)
@@ -1030,6 +1031,23 @@ void MEDDLY::saturation_set_mtrel<EOP, ATYPE>::fillSplit(int L, node_handle bp)
 #endif
 
         if (ABS(arg2F->getNodeLevel(mxdn)) < k) {
+            if (0 != mxdn && !arg2F->isIdentityReduced()) {
+                //
+                // Skipped level, not identity reduced: every entry
+                // at this level, on or off the diagonal, is mxd.
+                // Keep the off-diagonal entries here, continue with mxd.
+                //
+                kdiag.set( arg2F->makeIdentitiesTo(
+                    arg2F->linkNode(mxdn), k-1, k, -1
+                ) );
+                mxdDifference->compute(k, ~0,
+                    nothing, mxdn,
+                    nothing, kdiag.getNode(),
+                    top_exactly[k].setEdgeValue(), resp
+                );
+                top_exactly[k].set(resp);
+                continue;
+            }
 #ifdef DEBUG_SPLIT_FULL
             splout << "    no dependency on this level\n";
             splout << "    exactly: 0\n";
@@ -1044,7 +1062,7 @@ void MEDDLY::saturation_set_mtrel<EOP, ATYPE>::fillSplit(int L, node_handle bp)
         diag.set(arg2F->linkNode(Brn->getDiagonal(0)));
         const unsigned maxi = arg2F->getLevelSize(k);
         for (unsigned i=1; i<maxi; i++) {
-            mxdIntersection->compute(k, ~0,
+            mxdIntersection->compute(k-1, ~0,
                     nothing, diag.getNode(),
                     nothing, Brn->getDiagonal(i),
                     diag.setEdgeValue(), resp
@@ -1065,11 +1083,18 @@ void MEDDLY::saturation_set_mtrel<EOP, ATYPE>::fillSplit(int L, node_handle bp)
 #endif
 
 
+        // The common diagonal as a matrix at level k: a node below
+        // level k is read that way only by identity-reduced forests,
+        // the others need the identity pattern spelled out.
+        kdiag.set( arg2F->makeIdentitiesTo(
+            arg2F->linkNode(diag.getNode()), k-1, k, -1
+        ) );
+
         // Set relation with top=k to relation minus common diagonal
         // and continue the iteration with the common diagonal
         mxdDifference->compute(k, ~0,
             nothing, mxd.getNode(),
-            nothing, diag.getNode(),
+            nothing, kdiag.getNode(),
             top_exactly[k].setEdgeValue(), resp
         );
         top_exactly[k].set(resp);
